@@ -310,6 +310,11 @@ fn sm_case(r: &gen::RawPos, depth: u32, x: u16) -> SmCase {
     // prefer moves after which the opponent has no legal move (mate / stalemate right at the horizon),
     // then moves after which the opponent has only one
     let terminal: Vec<Mv> = legal.iter().copied().filter(|&m| p.apply(m).legal_moves().is_empty()).collect();
+    // the move that ends the game may be the 100th ply without capture or pawn move: mate is still mate
+    if !terminal.is_empty() && x % 5 == 1 && x % 4 != 0 {
+        p.half = 99 - (x as u64 / 5 % 2);
+        p.full = p.full.max(60);
+    }
     let pool: &[Mv] = if !terminal.is_empty() && x % 4 != 0 { &terminal } else { &legal };
     SmCase { fen: p.fen(), mv: pool[(x / 4) as usize % pool.len()].uci(), depth }
 }
@@ -341,6 +346,9 @@ pub fn check_searchmoves(c: &SmCase, ctx: &mut Ctx) -> Result<(), String> {
     let child = p.apply(m);
     if child.legal_moves().is_empty() {
         ctx.class(if child.in_check(child.turn) { "move_mates" } else { "move_stalemates" });
+        if child.half >= 99 {
+            ctx.class("game_ending_move_is_the_99th_or_100th_quiet_ply");
+        }
         if !child.in_check(child.turn) && child.pseudo_moves().iter().any(|&x| child.is_capture(x)) {
             ctx.class("stalemated_side_has_an_illegal_capture");
         }
